@@ -1922,7 +1922,12 @@ impl<'a> Socket<'a> {
             // reason is TCP simultaneous open).
             (State::SynReceived, TcpControl::Rst) if self.listen_endpoint.port != 0 => {
                 tcp_trace!("received RST");
-                self.tuple = None;
+                // Forget everything learned from the aborted handshake (the peer's MSS, window
+                // scale and timestamps, our retransmission timer): the next SYN may come from
+                // a different peer.
+                let listen_endpoint = self.listen_endpoint;
+                self.reset();
+                self.listen_endpoint = listen_endpoint;
                 self.set_state(State::Listen);
                 return None;
             }
